@@ -301,53 +301,114 @@ SPEC = dict(
     setup_extra=setup_extra,
     rule="Cases: corpus/C06 (witnesses of the repaired over-reads F08/F09/F25 and boundary cases) + generated: 80% histories of "
          "safe public API calls on one set of buffers (encode/encode_raw/encode_into incl. one invalid letter and a destination of "
-         "the wrong length, EncodedSequence::encode, stripe/stripe_into/to_striped, StripedSequence::sample, configure/"
+         "the wrong length, EncodedSequence::encode, stripe/stripe_into/to_striped, StripedSequence::sample, "
+         "StripedSequence::new(DenseMatrix::new(n), L) (caller-built matrix without spare rows), configure/"
          "configure_wrap, score_into/score_rows_into f32 and u8 with row ranges inside the sequence rows, reaching into the "
          "look-ahead rows, past the matrix, empty and inverted, StripedScores::resize, max/argmax/threshold through the pipeline "
          "and through StripedScores, Scanner (collect/max/mixed, block sizes 1..1000, own and caller-owned score buffer), Gibbs "
-         "Sampler, count_symbols, exact-capacity clones, re-encoding and re-striping into the same buffers), alphabets DNA/protein, "
+         "Sampler, count_symbols, exact-capacity clones, re-encoding and re-striping into the same buffers; 25% of the API histories "
+         "end with an exact-allocation tail: a new sequence (sample / new(DenseMatrix) / stripe), configure for exactly the motif, "
+         "clone (75%), then 1-3 scoring / scanning calls that read the last look-ahead row), alphabets DNA/protein, "
          "pipelines generic/SSE2/AVX2 and the dispatcher forced to each arm; lengths 0..40, around multiples of 16/32, "
          "993..4200 with L mod 32 != 0, around 1024k; motif widths 0..80; 10% SSE2 pipeline with C in 16/32/48; 10% DenseMatrix "
          "histories (new/with_capacity/resize/reserve/fill/clone/from_rows incl. ragged/Index incl. out of range/iterators) for "
-         "u8/u32/f32 x C in 5,7,16,21,32,48. Every case runs in four child processes: two AddressSanitizer builds (dev profile and "
-         "--release; spare Vec capacity of read-only arguments poisoned) and twice in the plain debug build with a guard-page "
-         "allocator for every DenseMatrix (end-aligned: over-runs fault; start-aligned: under-runs fault) (debug_assert alignment checks, misaligned-pointer checks), each child is "
+         "u8/u32/f32 x C in 5,7,16,21,32,48. Every case runs in five child processes: two AddressSanitizer builds (dev profile at "
+         "opt-level 0 -- every load of the source is executed, dead ones included -- and --release; spare Vec capacity of read-only "
+         "arguments poisoned), twice in a plain build at opt-level 0 (CARGO_PROFILE_DEV_OPT_LEVEL=0, build/cargo-o0; debug_assert "
+         "alignment checks, misaligned-pointer checks) with a guard-page allocator that fills every DenseMatrix allocation with a "
+         "canary byte (end-aligned: over-runs fault; start-aligned: under-runs fault; rows between rows() and capacity() of a matrix "
+         "allocated or reallocated inside a call must still hold the canary), and a MemorySanitizer build (-Zbuild-std) that asks "
+         "after every op whether every logical cell of every buffer was written (cells filled only by non-temporal stores are "
+         "invisible to it: reported as a broken tie, not as a violation); each child is "
          "restarted after a death (blamed on the op that was running) and killed after 90 s without progress (HANG). Per op the harness records the parameter tuple the kernel is entered with "
-         "(L, rows, capacity, wrap, M, strides, row range) and the outcome; the driver evaluates the extracted wrapper + footprint "
-         "model on that tuple: PROPFAIL = sanitizer report / crash (SIGSEGV on a guard page, abort) / damaged canary in the spare capacity of a "
-         "destination / symbol code >= K left in a caller buffer; DIFF = guard outcome "
-         "(panic / early return / rows written) or stride differs from the model, the extracted checker check_C06 rejects a model "
-         "access, or the extracted history model (FpHistory.hstep, the subject of C06_histories_partial) replayed on the observed "
-         "pre-state of the op gives another post-state / kernel entry than the implementation. Source tie: 578 memory-relevant statements of the 50 functions the model was transcribed from (neon.rs "
-         "included) are compared with their pinned text, and every `unsafe` of lightmotif/src must lie inside them. Source-derived "
+         "(L, rows, capacity, wrap, M, strides, row range; rows / capacity of the destination before and after the call, also after a "
+         "panicking scoring call) and the outcome; the driver evaluates the extracted wrapper + footprint "
+         "model on that tuple. For C06 the run-time VERDICT is the sanitizers': every run-time PROPFAIL is produced by hand-written "
+         "code in ocaml/footprint/driver.ml -- prefix matching on the verdict strings of the five children (ASAN(..), "
+         "MSAN(never-written-cell), CRASH(sigN / exit97): SIGSEGV on a guard page, abort, damaged canary found by a plain child) and "
+         "on records of the harness (damaged canary in the spare capacity of a destination, rows() > capacity() after a scoring "
+         "call, symbol code >= K left in a caller buffer, from_rows exposing unwritten rows). The extracted, proved-sound check_C06 "
+         "decides a PROPFAIL only in the static source-footprint path (NEON wrappers). What Coq certifies: the model footprints are "
+         "inside the owned rows and aligned under the guards (C06.v), the guards as computed in usize agree with the modelled Z "
+         "guards (C06b.v part D), an invariant (rows <= capacity for the sequence matrix and both score matrices, shape of the "
+         "sequence matrix) is preserved along every history and every access is inside the allocation as it is at that step (C06b.v "
+         "part A: C06_histories_invariant_partial, C06_histories_from_fresh_partial; C06_histories_allocation_partial is the WEAKER "
+         "corollary with the extent widened to the capacity), every readable cell is covered by a write of the footprint (C06b.v "
+         "part B: fp_init_*), the extents of the Python buffer views lie inside the owned rows (part C: fp_py_*, on the shape / "
+         "strides formulas generated from lib.rs). C06_histories_partial holds from any non-negative state (conjunction of the "
+         "per-kernel theorems, no invariant); the inductive statement is C06_histories_invariant_partial; the transitions of the "
+         "history model are tied per op by the driver (DIFF), not by a theorem about the Rust code. What the run ties (DIFF, decided "
+         "with the extracted model): guard outcome (panic / early return / rows written / rows after a panic) or stride differs "
+         "from the model; the usize guard (FpUsize.score_guard_usize, dev and release profile) and the Z guard fall into different "
+         "outcome classes; the extracted history / capacity model (FpHistory.hstep, FpCap.cstep: a clone is an exact allocation, a "
+         "configure_wrap or resize that fits keeps the allocation, a reallocation holds the rows) replayed on the observed pre-state "
+         "of the op gives another post-state / kernel entry / capacity than the implementation; a rejection by check_C06 of an "
+         "access of the MODEL's footprint on the parameters the kernel was entered with is reported as "
+         "`DIFF model-access-outside-owned-rows:<kernel>:<access>` (by the theorems of C06.v impossible for the kernel and extents "
+         "the guards admit, so the driver picked another kernel / extent than the code: broken tie; never seen on the unchanged "
+         "tree), `DIFF model-predicts-access-past-the-allocation-sanitizer-clean` when the model access is past the allocation and "
+         "no child reported; MSan reports on cells written only by non-temporal stores (`DIFF initialisation-not-confirmed`); "
+         "missing verdicts, hangs, unreadable numbers (`driver-exception`, the driver never replaces a number by 0). "
+         "Source tie: 750 memory-relevant statements of the 69 functions the model was transcribed from (neon.rs, the "
+         "lightmotif-py `__getbuffer__`s, Scanner::__init__ (transmute) and struct Scanner included) are compared with their pinned "
+         "text, and every `unsafe` / `transmute` token of the four crates (lightmotif, lightmotif-py, lightmotif-io, "
+         "lightmotif-tfmpvalue) must lie inside them. Source-derived "
          "footprints: an interpreter of the kernels' control flow and pointer arithmetic derives the access list of each of the 15 "
          "kernels (12 x86 + 3 NEON) on a parameter grid (294 quick / 385 thorough cases) from the source text; the driver compares it "
          "with the extracted model (as sets) and runs check_C06 on it; for the NEON kernels (cannot run on this host) also the "
          "wrappers' guards are interpreted, and a call the wrapper lets through whose footprint check_C06 rejects is a statically "
          "derived PROPFAIL (this is how finding F26 — no row-range check in the NEON wrappers, repaired in 9cd9b52 — showed; its "
-         "witness stays in the grid as a must-pass case). Non-trivial: distinct histories with an op that enters an "
+         "witness stays in the grid as a must-pass case). Corpus additions of round 3: x1-x15 exact-allocation histories (clone / "
+         "new(DenseMatrix) / sample, u8 + f32, every arm), y1-y10 reuse histories of 40, 7, 50 and 3, 1, 9 rows on every SIMD score "
+         "wrapper, u1-u6 row ranges next to usize::MAX (all panic in every child, as modelled). Non-trivial: distinct histories with an op that enters an "
          "unsafe kernel (SIMD arm or native dispatcher), all SSE2-width cases, dense histories with from_rows/fill/clone/iterators.",
     trusted_base=[
-        "Coq 8.16.1 kernel (coqc); vm_compute only in the refuted/non-vacuity statements; no native_compute",
-        "extraction: ExtrOcamlBasic only (nat, Z, positive, list kept as extracted inductives); OCaml 4.13.1",
-        "hand-written OCaml driver ocaml/footprint/driver.ml (parsing, selection of the kernel model per (pipeline, arm, element "
-        "size, K), comparison of guard outcomes; the in-bounds/alignment verdict itself is the extracted all_ok, proved sound)",
+        "Coq 8.16.1 kernel (coqc; coqchk in the thorough tier on LMFootprint.C06 only, C06b is audited by Print Assumptions); "
+        "vm_compute only in the refuted / non-vacuity / Example witness statements of C06.v and C06b.v; no native_compute",
+        "extraction: ExtrOcamlBasic only (its Extract Inductive directives for bool, option, list, prod, unit, sumbool, sumor); no other "
+        "Extract Inductive, no Extract Constant (nat, Z, positive stay extracted inductives); OCaml 4.13.1",
+        "hand-written OCaml driver ocaml/footprint/driver.ml (parsing incl. the decimal parser into Z, selection of the kernel model "
+        "per (pipeline, arm, element size, K) -- the dispatch.rs arm table is hand-written there --, comparison of guard outcomes, "
+        "post-states and capacities; the in-bounds/alignment test of a model footprint is the extracted all_ok / check_C06, proved "
+        "sound, but its rejection is a DIFF, not the verdict)",
+        "hand-written PROPFAIL paths of ocaml/footprint/driver.ml = EVERY run-time PROPFAIL: verdict-string prefixes ASAN / MSAN / "
+        "CRASH of the five children (`memory-error`, `uninitialised-memory`) and the harness Invariant records (damaged canary = "
+        "write-past-the-owned-rows(inside-capacity), rows-exceed-capacity, symbol-invariant-broken, "
+        "from_rows-exposes-unwritten-rows); the only PROPFAIL decided by the extracted check_C06 is the static srcfp path "
+        "(neon-wrapper-lacks-the-row-range-guard)",
         "Rust harness harness/src/bin/footprint.rs (op interpreter over the public API, catch_unwind, child-process orchestration, "
-        "poisoning of spare capacity through __asan_poison_memory_region); its sanitizer self-test runs on every check",
+        "poisoning of spare capacity through __asan_poison_memory_region, the guard-page / canary-filling global allocator of the "
+        "plain children, the MemorySanitizer child's cell_check of every logical cell after every op and its blessing of padding); "
+        "its sanitizer self-test (incl. dead-load-oob in the opt-level 0 binary, canary, stream-oob) runs on every check",
+        "cargo profile override CARGO_PROFILE_DEV_OPT_LEVEL=0 (harness/Cargo.toml has opt-level 1 for dev): the guard-page "
+        "children and the dev-profile ASan child run unoptimised code so that loads the optimiser would delete are executed; the "
+        "optimised code runs in the ASan --release child and the MSan child",
         "non-temporal stores (_mm256_stream_*, _mm_stream_ps: every score row and every striped block) are inline assembly in "
         "std::arch and NOT seen by AddressSanitizer (self-test `stream-oob` survives under ASan): for them the plain build uses a "
         "guard-page global allocator (every allocation of alignment >= 32, i.e. every DenseMatrix, ends at an inaccessible page) "
         "and the harness keeps a canary/snapshot in the spare capacity of destination matrices (stripe_into, score_*_into)",
         "AddressSanitizer of the nightly toolchain (rustc -Zsanitizer=address, compiler-rt): shadow memory, redzones of the "
         "instrumented allocator; only lightmotif, its dependencies and the harness are instrumented (std is not rebuilt)",
-        "translate/footprint_src.py (brace-matching reader of the Rust sources; pinned text translate/footprint_pinned.json)",
+        "MemorySanitizer of the nightly toolchain (-Zsanitizer=memory, -Zbuild-std: instrumented std); blind to non-temporal "
+        "stores (inline assembly) like AddressSanitizer: reports on score / striped cells after scoring / striping ops are named "
+        "not-seen-written and become a DIFF; it does not run the scan / gibbs ops",
+        "translate/footprint_src.py (brace-matching reader of the Rust sources of the four crates; pinned text "
+        "translate/footprint_pinned.json: 69 functions, 750 statements), translate/footprint_exec.py (interpreter of the kernels' "
+        "control flow and pointer arithmetic and of the NEON wrappers' guards: derives the access lists of the 15 kernels from the "
+        "source text), translate/pyidx_slots.py (C18's translator run as a library by props/c06.py: the six gen_*_shape / "
+        "gen_*_strides formulas of the lightmotif-py buffer views are copied into coq/footprint/GenPyViews.v, used by "
+        "fp_py_*_view_inside_rows; coq/footprint does not import coq/pyidx)",
         "modelled, not verified: that the kernels perform exactly the accesses listed in FpModel.v (hand transcription of the "
         "pointer arithmetic, tied by the sanitizer run and the source tie); extents rows*stride*size_of<T> and 32-byte row "
         "alignment come from the dense layout model (C19) and are compared with .stride() on every op; semantics of the "
         "load/store/stream/gather intrinsics (width, alignment requirement); gather lanes are symbol codes < K",
-        "NOT covered (said in DESIGN 3/C06): allocator and compiler correctness, reads of allocated-but-uninitialised memory "
-        "(encode_raw's set_len buffer on the error path, from_rows with a short iterator), data races, Miri-level aliasing rules; the NEON "
-        "kernels are modelled and tied to the source text but never executed (no Arm host)",
+        "NOT covered (said in DESIGN 3/C06): allocator and compiler correctness, allocation failure (abort), data races, "
+        "Miri-level aliasing rules; reads of uninitialised memory are covered at model level (C06b.v part B: every readable cell "
+        "is covered by a write of the footprint) and dynamically by the MemorySanitizer child, except cells written only by "
+        "non-temporal stores; the NEON kernels are modelled and tied to the source text but never executed (no Arm host); the "
+        "raw pointers / lifetimes of the Python module (FpPy.v) are model + pinned text only (the dynamic side is C17 / C18's)",
+        "no footprint theorem (safe code over the kernels; covered by the sanitizer children only, ops scan / gibbs / thr / count / "
+        "sum / exact): Scanner, Sampler, threshold, count_symbols, iterators, clone",
     ],
     assumptions=[
         "host is x86_64 with AVX2 (Dispatch arms Generic/Sse2/Avx2; native dispatch = AVX2); the NEON arm is tied to the source "
@@ -356,6 +417,13 @@ SPEC = dict(
         "a DenseMatrix<T,C> owns rows()*stride()*size_of::<T>() bytes starting at a 32-byte aligned address (C19 layout model; "
         "the allocator honours the alignment of Row); slices and stack arrays have no alignment guarantee",
         "in-contract = safe public API only (DenseMatrix::uninitialized/ravel/ravel_mut are `unsafe fn` and outside the contract)",
+        "usize_ok (FpUsizeProofs.v): arguments are usize values, a StripedSequence has wrap() <= rows(), its matrix is one "
+        "allocation (<= isize::MAX bytes), a score row has >= 32 bytes; allocation failure (abort) is outside the model (no "
+        "generated range reaches a resize of more than ~2^12 rows)",
+        "PARTIAL: the theorems are about the footprint MODEL under the guards; C06_histories_partial carries no invariant "
+        "(holds from any non-negative state), the inductive one is C06_histories_invariant_partial; capacity is tracked for the "
+        "sequence matrix and the two score matrices only (symbol vector and scoring matrices are exact by construction in the "
+        "harness); base alignment of a DenseMatrix is assumed, offset alignment derived from C19's stride formula",
     ],
 )
 
